@@ -46,6 +46,11 @@ TECHNIQUE = "static analysis: symbolic field-wiring extraction over resolved HIR
 
 
 def run(ctx):
+    _run_main(ctx)
+    _shared_r5(ctx)
+
+
+def _run_main(ctx):
     r121(ctx)
     r122(ctx)
     r123(ctx)
@@ -255,3 +260,12 @@ def completeness(ctx):
             if p not in tabled:
                 r.info('untabled:%s' % p, ctx.site(p), why='public operation without an oracle row: not checked')
         r.check('surface', n >= 60, None, built=n, expected='>= 60 public operations found')
+
+
+def _shared_r5(ctx):
+    """Rules of other properties that are necessary conditions of this one too (found by seeding round 5)."""
+    from rules import arms as A
+    with ctx.rule('R12.5', 'the flags of a publish and the identity of a received message are what the arguments say: Basic.Publish fields, and a delivery / get result is the collected one unmodified (shared with C02 / C03)', floor=4) as r:
+        A.include(ctx, r, 'c02', 'R02.1', pick=(':field:',))
+        A.include(ctx, r, 'c03', 'R03.1', pick=(':done',))
+        A.include(ctx, r, 'c03', 'R03.4', pick=('',))
